@@ -28,7 +28,7 @@ REL = {1: 0.15, 2: 0.9}          # value codes of Purity!cells[..].rel
 BASE_FIX = 0.35
 X_LL = np.array([1.3, 0.9, 0.7, 0.4, 0.3, 0.2])
 PAIRS = [('ll', 'lp_same'), ('ll', 'll'), ('llfix', 'pm'), ('hlp', 'll'), ('fp', 'lp'), ('pm', 'lp'), ('hlp', 'fp'), ('ctrl', 'll'),
-         ('lp', 'ctrl'), ('fp', 'fp'), ('ppm', 'll'), ('ppm', 'ppm')]
+         ('lp', 'ctrl'), ('fp', 'fp'), ('ppm', 'll'), ('ppm', 'ppm'), ('tg', 'pm'), ('tg', 'tg')]
 
 
 def user_models():
@@ -79,6 +79,10 @@ def build(kind, u, shared=None):
         return f, np.array([0.2, 0.3, 0.9, 0.7, 0.4, 0.3, 1.2, 1.4, 0.1, -0.2, 0.3, 0.5, -0.4, 0.2, 0.6, -0.1, 0.25, -0.35, 0.15, 0.45])
     if kind == 'pm':
         return chi.PredictiveModel(u['mech'], u['ems']), X_LL
+    if kind == 'tg':
+        # a population model whose sampler draws from NumPy's GLOBAL generator (scipy's truncnorm): seeded sampling must
+        # not depend on what else was sampled or evaluated before -- also for the seed 0
+        return chi.ReducedPopulationModel(chi.TruncatedGaussianModel(n_dim=2)), np.array([1.0, 2.0, 0.5, 0.3])
     if kind == 'ppm':
         # a posterior predictive model over a posterior with TWO individuals: the walk samples them alternately from the
         # same object (seeded) -- what one individual's sample returns must not depend on who was sampled before
@@ -132,7 +136,10 @@ def evaluate(kind, obj, x, k):
     with warnings.catch_warnings():
         warnings.simplefilter('error', RuntimeWarning)
         xin = x.copy()
-        if kind == 'ppm':
+        if kind == 'tg':
+            sd = {'value': 0, 'pointwise': np.int64(0), 'S1': 7, 'sample': 0}[k]
+            out = obj.sample(xin, n_samples=3, seed=sd)
+        elif kind == 'ppm':
             who = 'a' if k in ('value', 'S1') else 'b'
             df = obj.sample(np.array([2.0, 0.5, 1.0]), n_samples=3, individual=who, seed=3)
             out = df['Value'].to_numpy(dtype=float)
@@ -154,6 +161,8 @@ def evaluate(kind, obj, x, k):
 
 
 def eff_kind(kind, k):
+    if kind == 'tg':
+        return 'seed7' if k == 'S1' else 'seed0'
     if kind == 'ppm':
         return 'a' if k in ('value', 'S1') else 'b'
     if kind == 'pm':
@@ -294,10 +303,10 @@ def replay_walk(arg):
         _FORK.clear()
         _FORK.update(objs)
         with ctx.Pool(2) as pool:
-            res = pool.map(_child_eval, [o for o in (1, 2) if objs[o][0] not in ('pm', 'ppm')])
+            res = pool.map(_child_eval, [o for o in (1, 2) if objs[o][0] not in ('pm', 'ppm', 'tg')])
         k = 0
         for o in (1, 2):
-            if objs[o][0] in ('pm', 'ppm'):
+            if objs[o][0] in ('pm', 'ppm', 'tg'):
                 continue
             exp = expected(objs[o][0], 'value', fixed=objfixed[o])
             if not np.allclose(res[k], exp, rtol=1e-9, atol=1e-10):
